@@ -229,6 +229,13 @@ def run_check(main):
     for a in sys.argv[1:]:
         if a in ("quick", "thorough"):
             tier = a
+    import atexit
+    import shutil
+    import tempfile
+    WORK.mkdir(parents=True, exist_ok=True)
+    cwd = tempfile.mkdtemp(prefix="run-", dir=WORK)     # the library drops <uuid>.cnf files into the cwd: keep them out of /verif
+    os.chdir(cwd)
+    atexit.register(shutil.rmtree, cwd, True)
     try:
         rc = main(tier)
     except SystemExit:
